@@ -16,6 +16,9 @@ pub struct RichCase {
     pub width: usize,
     /// colour choices consumed while decorating elements with style attributes (empty = no CSS)
     pub colours: Vec<u8>,
+    /// pad_block_width: the padding must not take annotations of inline elements
+    #[serde(default)]
+    pub pad: bool,
 }
 
 fn parse_hex(s: &str) -> Option<(u8, u8, u8)> {
@@ -127,8 +130,13 @@ fn strip(tags: &[Ann]) -> (Vec<Ann>, Vec<bool>) {
 }
 
 pub fn check_html(html: &str, width: usize, css: bool, st: &mut Stats, key: &dyn Fn(&mut Stats, bool)) -> Result<(), String> {
+    check_html_pad(html, width, css, false, st, key)
+}
+
+pub fn check_html_pad(html: &str, width: usize, css: bool, pad: bool, st: &mut Stats, key: &dyn Fn(&mut Stats, bool)) -> Result<(), String> {
     let mut cfg = CfgSpec::rich();
     cfg.doc_css = css;
+    cfg.pad = pad;
     let colours: ColourFn = if css { &inline_style_colours } else { &no_colours };
     check_annotations(html, &cfg, width, colours, st, key)
 }
@@ -179,6 +187,9 @@ pub fn check_annotations(html: &str, cfg: &CfgSpec, width: usize, colours: Colou
             prefixes.insert(format!("{:?}", &v[..k]));
         }
     }
+    // ... and the vectors padding may carry: those of block-level elements (with all their ancestors)
+    let mut block_prefixes: BTreeSet<String> = BTreeSet::new();
+    block_prefixes.insert(format!("{:?}", Vec::<Ann>::new()));
     for n in dom.elements() {
         let mut chain: Vec<usize> = dom.ancestors(n);
         chain.reverse();
@@ -188,15 +199,32 @@ pub fn check_annotations(html: &str, cfg: &CfgSpec, width: usize, colours: Colou
             if dom.is_elem(a) {
                 v.extend(element_anns(&dom, a, colours));
                 prefixes.insert(format!("{:?}", v));
+                if matches!(dom.name(a), Some("html" | "body" | "p" | "div" | "ul" | "ol" | "li" | "blockquote" | "dl" | "dt" | "dd" | "pre" | "table" | "thead" | "tbody" | "tfoot" | "tr" | "td" | "th" | "h1" | "h2" | "h3" | "h4" | "h5" | "h6")) {
+                    block_prefixes.insert(format!("{:?}", v));
+                }
             }
         }
     }
     let mut occurrences: HashMap<usize, usize> = HashMap::new();
     let mut multi = false;
     for (y, l) in lines.iter().enumerate() {
-        for e in l {
+        for (ei, e) in l.iter().enumerate() {
             let OElem::Str(s, tags) = e else { continue };
             let (got, pf) = strip(tags);
+            // Line-trailing blanks (padding of a block or a table cell; trailing white space of the text
+            // itself is never rendered outside <pre>) belong to the block, not to an inline element.
+            if pf.is_empty() && s.ends_with(' ') {
+                let next = l[ei + 1..].iter().find_map(|x| if let OElem::Str(t, _) = x { if t.is_empty() { None } else { Some(t.as_str()) } } else { None });
+                if next.map_or(true, |t| t.starts_with('\u{2502}')) {
+                    st.class("trailing_blanks_checked");
+                    if !block_prefixes.contains(&format!("{:?}", got)) {
+                        return Err(format!(
+                            "blanks at the end of a line / cell ({:?} on line {}) carry annotations {:?} which are not those of a block-level element and its ancestors (w={}, pad={})\nhtml={}",
+                            s, y, got, width, cfg.pad, short(html, 900)
+                        ));
+                    }
+                }
+            }
             let mut labels: Vec<usize> = s.chars().filter_map(label_of).collect();
             labels.dedup();
             if labels.is_empty() {
@@ -260,7 +288,10 @@ pub fn check_rich(case: &RichCase, st: &mut Stats) -> Result<(), String> {
     let css = !case.colours.is_empty();
     st.sample(|| json!({"html": short(&html, 400), "width": case.width, "use_doc_css": css}));
     let c2 = case.clone();
-    check_html(&html, case.width, css, st, &move |st, nt| {
+    if case.pad {
+        st.class("pad_block_width");
+    }
+    check_html_pad(&html, case.width, css, case.pad, st, &move |st, nt| {
         if nt {
             st.nontrivial(&c2);
         }
@@ -299,10 +330,10 @@ pub fn colourise(doc: &mut Doc, choices: &[u8]) -> usize {
 
 fn rich_case() -> BoxedStrategy<RichCase> {
     let g = G::default().depth(2);
-    (gen::doc(&g), 1usize..=100, prop_oneof![1 => Just(vec![]), 2 => prop::collection::vec(any::<u8>(), 1..10)])
-        .prop_map(|(mut doc, width, colours)| {
+    (gen::doc(&g), 1usize..=100, prop_oneof![1 => Just(vec![]), 2 => prop::collection::vec(any::<u8>(), 1..10)], prop::bool::weighted(0.3))
+        .prop_map(|(mut doc, width, colours, pad)| {
             colourise(&mut doc, &colours);
-            RichCase { doc, width, colours }
+            RichCase { doc, width, colours, pad }
         })
         .boxed()
 }
